@@ -1,6 +1,179 @@
 import TabulaModel.Util
-namespace Tabula.C19H
+import TabulaModel.Model.Html
+/-
+Line protocol of C19.
 
-def handle (_op : String) (_args : List String) : String := "bad-op"
+  c19.dom <mode> <tree>   →  E=<elements> X=<exclusion bits> T=<hex text> D=<document elements>
+  c19.match <hex>         →  1 | 0     (class/id pattern of Standard mode)
+
+tree  ::= 'T' hex '.'  |  'E' hex { '@' hex '=' hex } '(' tree* ')'  |  'O' '(' tree* ')'
+hex is the UTF-8 bytes of the string, two lower-case digits per byte (empty allowed).
+-/
+namespace Tabula.C19H
+open Tabula Tabula.Html
+
+/-- UTF-8 decoding as Go ranges over a string: an invalid byte becomes one unit
+(carried as 0x110000 + byte so that it is written back unchanged). -/
+partial def decodeUtf8 : List Nat → List Nat → List Nat
+  | [], acc => acc.reverse
+  | b :: rest, acc =>
+    let bad := fun (_ : Unit) => decodeUtf8 rest ((0x110000 + b) :: acc)
+    let cont (x : Nat) : Bool := 0x80 ≤ x && x ≤ 0xBF
+    if b < 0x80 then decodeUtf8 rest (b :: acc)
+    else if 0xC2 ≤ b && b ≤ 0xDF then
+      match rest with
+      | c1 :: r => if cont c1 then decodeUtf8 r (((b - 0xC0) * 64 + (c1 - 0x80)) :: acc) else bad ()
+      | _ => bad ()
+    else if 0xE0 ≤ b && b ≤ 0xEF then
+      match rest with
+      | c1 :: c2 :: r =>
+        let lo := if b == 0xE0 then 0xA0 else 0x80
+        let hi := if b == 0xED then 0x9F else 0xBF
+        if lo ≤ c1 && c1 ≤ hi && cont c2 then
+          decodeUtf8 r (((b - 0xE0) * 4096 + (c1 - 0x80) * 64 + (c2 - 0x80)) :: acc)
+        else bad ()
+      | _ => bad ()
+    else if 0xF0 ≤ b && b ≤ 0xF4 then
+      match rest with
+      | c1 :: c2 :: c3 :: r =>
+        let lo := if b == 0xF0 then 0x90 else 0x80
+        let hi := if b == 0xF4 then 0x8F else 0xBF
+        if lo ≤ c1 && c1 ≤ hi && cont c2 && cont c3 then
+          decodeUtf8 r (((b - 0xF0) * 262144 + (c1 - 0x80) * 4096 + (c2 - 0x80) * 64 + (c3 - 0x80)) :: acc)
+        else bad ()
+      | _ => bad ()
+    else bad ()
+
+def encodeCp (c : Nat) : List Nat :=
+  if c < 0x80 then [c]
+  else if c < 0x800 then [0xC0 + c / 64, 0x80 + c % 64]
+  else if c < 0x10000 then [0xE0 + c / 4096, 0x80 + (c / 64) % 64, 0x80 + c % 64]
+  else if c < 0x110000 then [0xF0 + c / 262144, 0x80 + (c / 4096) % 64, 0x80 + (c / 64) % 64, 0x80 + c % 64]
+  else [c - 0x110000]
+
+def hexS (s : Str) : String := hex ((s.flatMap encodeCp).map UInt8.ofNat)
+
+def isHexChar (c : Char) : Bool := (hexDigitVal c).isSome && !('A' ≤ c ∧ c ≤ 'F')
+
+/-- read hex digits up to the next delimiter -/
+def takeHex (cs : List Char) : Option (Str × List Char) :=
+  let h := cs.takeWhile isHexChar
+  let rest := cs.dropWhile isHexChar
+  match unhexAux h [] with
+  | some bs => some (decodeUtf8 (bs.map (·.toNat)) [], rest)
+  | none => none
+
+partial def parseAttrs (cs : List Char) (acc : List (Str × Str)) : Option (List (Str × Str) × List Char) :=
+  match cs with
+  | '@' :: r =>
+    match takeHex r with
+    | some (k, '=' :: r2) =>
+      match takeHex r2 with
+      | some (v, r3) => parseAttrs r3 ((k, v) :: acc)
+      | none => none
+    | _ => none
+  | _ => some (acc.reverse, cs)
+
+mutual
+partial def parseNode (cs : List Char) : Option (Dom × List Char) :=
+  match cs with
+  | 'T' :: r =>
+    match takeHex r with
+    | some (s, '.' :: r2) => some (.text s, r2)
+    | _ => none
+  | 'E' :: r =>
+    match takeHex r with
+    | some (tag, r2) =>
+      match parseAttrs r2 [] with
+      | some (attrs, '(' :: r3) =>
+        match parseNodes r3 [] with
+        | some (kids, r4) => some (.elem tag attrs kids, r4)
+        | none => none
+      | _ => none
+    | none => none
+  | 'O' :: '(' :: r =>
+    match parseNodes r [] with
+    | some (kids, r2) => some (.other kids, r2)
+    | none => none
+  | _ => none
+partial def parseNodes (cs : List Char) (acc : List Dom) : Option (List Dom × List Char) :=
+  match cs with
+  | ')' :: r => some (acc.reverse, r)
+  | [] => none
+  | _ =>
+    match parseNode cs with
+    | some (n, r) => parseNodes r (n :: acc)
+    | none => none
+end
+
+def parseTree (s : String) : Option Dom :=
+  match parseNode s.toList with
+  | some (n, []) => some n
+  | _ => none
+
+def parseMode : String → Option Mode
+  | "none" => some .none | "explicit" => some .explicit
+  | "standard" => some .standard | "aggressive" => some .aggressive
+  | _ => none
+
+def dumpCell (c : Cell) : String :=
+  s!"{if c.isHeader then "h" else "d"}{c.rowSpan}x{c.colSpan}.{hexS c.text}"
+
+def dumpItems (items : List Item) : String :=
+  ",".intercalate (items.map fun i => s!"{i.level}.{hexS i.text}")
+
+def dumpRows (rows : List (List Cell)) : String :=
+  "/".intercalate (rows.map fun r => ",".intercalate (r.map dumpCell))
+
+def dumpEl : Element → String
+  | .heading l t => s!"H{l}:{hexS t}"
+  | .para t => s!"P:{hexS t}"
+  | .code t => s!"C:{hexS t}"
+  | .quote t => s!"Q:{hexS t}"
+  | .list o items => s!"L{if o then "o" else "u"}:{dumpItems items}"
+  | .table h rows => s!"T{if h then "h" else "n"}:{dumpRows rows}"
+
+def joinOrDash (xs : List String) : String := if xs.isEmpty then "-" else ";".intercalate xs
+
+/-- the element list of `DocumentWithOptions`: code and block quotes become paragraphs,
+tables become a grid as wide as the longest row, padded with empty cells -/
+def dumpDocEl : Element → String
+  | .heading l t => s!"H{l}:{hexS t}"
+  | .para t => s!"P:{hexS t}"
+  | .code t => s!"P:{hexS t}"
+  | .quote t => s!"P:{hexS t}"
+  | .list o items => s!"L{if o then "o" else "u"}:{dumpItems items}"
+  | .table _ rows =>
+    let n := rows.foldl (fun a r => max a r.length) 0
+    let pad (r : List Cell) : List Cell := r ++ List.replicate (n - r.length) ⟨[], false, 1, 1⟩
+    s!"T:{dumpRows (rows.map pad)}"
+
+mutual
+partial def xbits (m : Mode) (w : Bool) (pos : Pos) : Dom → String
+  | .text _ => ""
+  | .other kids => xbitsL m w (pos.kid w []) kids
+  | .elem tag attrs kids =>
+    (if excluded m pos (.elem tag attrs kids) then "1" else "0") ++ xbitsL m w (pos.kid w tag) kids
+partial def xbitsL (m : Mode) (w : Bool) (kp : Pos) : List Dom → String
+  | [] => ""
+  | k :: ks => xbits m w kp k ++ xbitsL m w kp ks
+end
+
+def handle (op : String) (args : List String) : String :=
+  match op, args with
+  | "c19.dom", [mode, tree] =>
+    match parseMode mode, parseTree tree with
+    | some m, some body =>
+      let els := extract m body
+      let xb := xbits m (hasWrapper body) .root body
+      s!"E={joinOrDash (els.map dumpEl)} X={if xb.isEmpty then "-" else xb} T={hexS (renderText els [])} D={joinOrDash (els.map dumpDocEl)}"
+    | _, _ => "bad-op"
+  | "c19.match", [h] =>
+    match unhex h with
+    | some bs =>
+      let s := decodeUtf8 (bs.map (·.toNat)) []
+      if excludedPattern vocabExcluded [(A.class, s)] then "1" else "0"
+    | none => "bad-op"
+  | _, _ => "bad-op"
 
 end Tabula.C19H
